@@ -62,6 +62,23 @@ type RunResult struct {
 	Waits    []WSched    // probe runs: the reconciling deliveries that were sent
 	NReq     int
 	Failures []string // hangs, leaks, unexpected requests (implementation or harness level)
+	srv      *Server
+	text     string
+}
+
+// LateRequests returns the requests that reached the run's server after its
+// event channel had been closed (checked again at the end of the whole session).
+func (r RunResult) LateRequests() []string {
+	if r.srv == nil {
+		return nil
+	}
+	r.srv.mu.Lock()
+	defer r.srv.mu.Unlock()
+	out := make([]string, len(r.srv.late))
+	for i, l := range r.srv.late {
+		out[i] = "request after the channel closed: " + l + " [in: " + r.text + "]"
+	}
+	return out
 }
 
 func policyOf(p Policy) inventory.Policy {
@@ -222,9 +239,8 @@ func execRun(st *Store, sc Scenario, auto bool) (res RunResult) {
 	for _, u := range unexpected {
 		res.Failures = append(res.Failures, "unexpected request: "+u)
 	}
-	for _, l := range late {
-		res.Failures = append(res.Failures, "request after the channel closed: "+l)
-	}
+	_ = late // reported by LateRequests at the end of the session
+	res.srv, res.text = srv, sc.Text()
 	res.Failures = append(res.Failures, cons.anomalies...)
 	res.Failures = append(res.Failures, st.notes...)
 	st.notes = nil
